@@ -77,7 +77,7 @@ def options(r, datetime):
                 unidecode=None, preamble=None)
 
 
-def drive(chk, build, props_file, gen_modules, keyfn, want, classify, n_quick, n_thorough, corpus=()):
+def drive(chk, build, props_file, gen_modules, keyfn, want, classify, n_quick, n_thorough, corpus=(), extra=None):
     tier = chk.tier
     proofs_ok = base.proof_obligations(chk, build, [props_file], list(gen_modules))
     disagreements, oracle_failed = [], False
@@ -113,6 +113,15 @@ def drive(chk, build, props_file, gen_modules, keyfn, want, classify, n_quick, n
             roots.append((name2, s2))
             if r.random() < 0.3:
                 roots.append(("Root", make_input(r, keyfn, o["unidecode"])[0]))      # the same explicit name twice
+            if r.random() < 0.6:
+                # D33: a further root whose explicit name is the name fix_name_duplicates gives to a duplicate (<name>_<index>)
+                try:
+                    reg0, _ = pipeline.build_registry(roots, o)
+                    cands = [m.name for m in reg0.models if m.is_name_generated and m.name and m.name.endswith("_" + m.index)]
+                    if cands:
+                        roots.append((r.choice(cands), make_input(r, keyfn, o["unidecode"])[0]))
+                except Exception:  # noqa
+                    pass
             info["roots"] = [[n, x] for n, x in roots]
         try:
             reg, _ = pipeline.build_registry(roots, o)
@@ -139,6 +148,8 @@ def drive(chk, build, props_file, gen_modules, keyfn, want, classify, n_quick, n
             ftags = classify(kind, msg, tags, o)
             oracle_failed |= chk.fail("oracle", dict(info, failure_kind=kind), msg, tags=ftags)
     base.run_view(chk, "Vemit", "X-emit", eterms, emeta, disagreements, shard=50, header=base.EMIT_HEADER)
+    if extra:
+        extra(chk, disagreements)
     base.conclude(chk, proofs_ok, disagreements, oracle_failed)
 
 
